@@ -52,6 +52,7 @@ import (
 	"errors"
 	"iter"
 	"log/slog"
+	"maps"
 	"net/http"
 	"time"
 
@@ -300,6 +301,49 @@ func (r *transport) handleCacheHit(
 	freshness := r.fc.CalculateFreshness(stored, ccReq, ccResp)
 	respNoCacheFieldsRaw, hasRespNoCache := ccResp.NoCache()
 	respNoCacheFieldsSeq, isRespNoCacheQualified := respNoCacheFieldsRaw.Value()
+
+	// RFC 9111 §5.2.1.1: a request max-age that the stored response exceeds
+	// demands validation; neither max-stale nor stale-while-revalidate lifts it.
+	reqMaxAgeExceeded := false
+	if reqMaxAge, ok := ccReq.MaxAge(); ok {
+		if reqMaxAge == 0 {
+			// The calculator short-circuits max-age=0 with a zero age; recompute
+			// without it so that Age and staleness below reflect the stored response.
+			ccReqNoMaxAge := maps.Clone(ccReq)
+			delete(ccReqNoMaxAge, "max-age")
+			freshness = r.fc.CalculateFreshness(stored, ccReqNoMaxAge, ccResp)
+			reqMaxAgeExceeded = true
+		} else {
+			reqMaxAgeExceeded = freshness.Age.Value > reqMaxAge
+		}
+	}
+	// Stale irrespective of what the request tolerates (max-stale).
+	expired := freshness.Age.Value >= freshness.UsefulLife
+	// The stored response must not be reused without successful validation
+	// (RFC 9111 §4.2.4, §5.2.1.4, §5.2.2.2, §5.2.2.4); must-revalidate and
+	// no-cache are not overridden by max-stale or stale-while-revalidate.
+	mustValidate := (expired && ccResp.MustRevalidate()) ||
+		(hasRespNoCache && !isRespNoCacheQualified) ||
+		ccReq.NoCache() ||
+		reqMaxAgeExceeded
+	if ccReq.OnlyIfCached() {
+		// RFC 9111 §5.2.1.7: never contact the origin; answer from the cache
+		// if that is allowed without validation, otherwise 504.
+		if mustValidate {
+			return make504Response(req)
+		}
+		return r.serveFromCache(
+			req,
+			urlKey,
+			stored,
+			freshness,
+			isRespNoCacheQualified,
+			respNoCacheFieldsSeq,
+		)
+	}
+	if mustValidate {
+		goto revalidate
+	}
 
 	// RFC 8246: If response is fresh and immutable, always serve from cache unless request has no-cache
 	if !freshness.IsStale && ccResp.Immutable() && !ccReq.NoCache() {
